@@ -189,6 +189,75 @@ def check_layouts(ctx, case) -> None:
     ctx.nt(["layouts", name], {"hedge": name, "layouts": sorted(views)})
 
 
+LONG = [1, 2, 3, 7, 8, 9, 255, 256, 257, 1023, 1024, 1025, 4095, 4096, 4097, 65535, 65536, 65537, 65539, 100003, 131072,
+        131073, 262147, 1048579]
+
+
+def ref_vector(name: str, x: np.ndarray) -> np.ndarray:
+    if name == "any":
+        return np.ones_like(x)
+    if name == "not":
+        return 1.0 - x
+    if name == "very":
+        return x * x
+    if name == "somewhat":
+        return np.sqrt(x)
+    lo = x <= 0.5
+    out = np.empty_like(x)
+    if name == "extremely":
+        out[lo] = 2.0 * x[lo] * x[lo]
+        out[~lo] = 1.0 - 2.0 * (1.0 - x[~lo]) * (1.0 - x[~lo])
+    else:
+        out[lo] = np.sqrt(x[lo] / 2.0)
+        out[~lo] = 1.0 - np.sqrt((1.0 - x[~lo]) / 2.0)
+    return out
+
+
+def check_long(ctx, case) -> None:
+    """case = {"hedge", "n", "mult"[, "shape"]}: one array of n degrees x[i] = ((i * mult + 7) mod 4097) / 4096 (every
+    residue occurs, neighbours differ, the last elements are not 0 / 0.5 / 1). "Elementwise on arrays" has no length
+    limit: every element, the last ones included, is the hedge of the element at the same index."""
+    name, n, mult = case["hedge"], int(case["n"]), int(case["mult"])
+    h = make(name)
+    x = ((np.arange(n, dtype=np.int64) * mult + 7) % 4097) / 4096.0
+    if case.get("shape"):
+        x = x.reshape(case["shape"])
+    keep = x.copy()
+    got = h.hedge(x)
+    ctx.ev()
+    ctx.check(bool(np.array_equal(x, keep)), "argument-mutated", case, {})
+    ok = np.shape(got) == x.shape
+    ctx.check(ok, "long-shape", case, {"got": list(np.shape(got)), "want": list(x.shape)})
+    if ok:
+        want = ref_vector(name, keep)
+        bad = ~(np.abs(np.asarray(got, dtype=float) - want) <= 1e-15)
+        if bad.any():
+            i = tuple(int(k) for k in np.argwhere(bad)[0])
+            ctx.check(False, "long-elementwise", case,
+                      {"first_wrong_index": list(i), "wrong_elements": int(bad.sum()), "x": float(keep[i]),
+                       "got": float(np.asarray(got, dtype=float)[i]), "ref": float(want[i])})
+    if n > 8:
+        ctx.nt(["long", name, n, mult, str(case.get("shape"))], case)
+    ctx.cls("long_array>65536" if n > 65536 else "long_array<=65536")
+
+
+def cases_long():
+    @st.composite
+    def s(draw):
+        name = draw(st.sampled_from(HEDGES))
+        k = draw(st.integers(0, 20))
+        n = draw(st.one_of(st.integers(1, 5000), st.integers(5000, 300000),
+                           st.builds(lambda a, d: max(1, 2 ** a + d), st.just(k), st.integers(-3, 3))))
+        mult = draw(st.sampled_from([1, 3, 5, 1021, 2053]))
+        shape = None
+        if draw(st.integers(0, 3)) == 0:
+            c = draw(st.sampled_from([c for c in (1, 2, 3, 4, 7, 64) if n % c == 0]))
+            shape = [n // c, c]
+        return {"hedge": name, "n": n, "mult": mult, "shape": shape}
+
+    return s()
+
+
 def cases_points():
     @st.composite
     def s(draw):
@@ -224,6 +293,9 @@ def run(ctx) -> None:
                                 "monotonicity, scalar==array, ordering, inverse pairs, involution)")
     ctx.direct("nonfinite", check_nonfinite, [{"x": float("nan")}, {"x": np.array([float("nan"), 0.3])}])
     ctx.direct("layouts", check_layouts, [{"hedge": name} for name in HEDGES])
+    ctx.direct("long", check_long, [{"hedge": name, "n": n_, "mult": 1021} for name in HEDGES for n_ in LONG]
+               + [{"hedge": name, "n": 65536 * 3 + 6, "mult": 5, "shape": [65536 + 2, 3]} for name in HEDGES])
+    ctx.hyp("long", cases_long(), check_long, 60 if ctx.tier == "quick" else 1500)
     ex = 600 if ctx.tier == "quick" else 20000
     ctx.hyp("points", cases_points(), check_points, ex)
     ctx.hyp("relations", st.builds(lambda xs: {"xs": xs, "exact": False},
@@ -232,7 +304,7 @@ def run(ctx) -> None:
 
 def replay(ctx, prop: str, case) -> None:
     fn = {"points": check_points, "relations": check_relations, "nonfinite": check_nonfinite,
-          "layouts": check_layouts}.get(prop)
+          "layouts": check_layouts, "long": check_long}.get(prop)
     if fn is None:
         return
     ctx.direct(prop, fn, [case])
